@@ -289,6 +289,12 @@ class C10(common.Prop):
                     "op": self.opkey(case, step), "kind": "raises"}
         if err is None and len(regs) != len(env):
             return {"what": "number of results differs from the reference", "step": None, "op": "?", "kind": "count"}
+        if out.get("alias"):
+            k = out["alias"][0]
+            step = owner[k] if k < len(owner) else None
+            return {"what": "the result of %s (register %d) changed when an in-place method (pow_, fix_nan, tensor.add_) was applied to the "
+                            "program's inputs afterwards: a computed result must hold its own values" % (case["prog"][step][0] if step is not None else "?", k),
+                    "step": step, "op": self.opkey(case, step), "kind": "aliased"}
         return None
 
     @staticmethod
